@@ -2,7 +2,7 @@
    AGV events fire exactly when due by the clock invariant of C12). *)
 From Coq Require Import List ZArith Bool.
 From JSL Require Import Base.Res Base.ListX SM.Types SM.Util SM.Handler SM.Step SM.Inv
-  SMP.Post SMP.PostApply SMP.Offers SMP.Clock SMP.ClockMain SMP.WF SMP.Reflect SMP.Feasible SMP.Unique.
+  SMP.Post SMP.PostApply SMP.Offers SMP.Clock SMP.ClockMain SMP.WF SMP.Reflect SMP.Feasible SMP.Unique SM.Middleware SMP.StepInv SMP.LiftSide SMP.OutputDone SMP.LiftProv SMP.ProvBatch.
 Import ListNotations.
 
 (* dispatch: the AGV reaches the pickup point exactly travel(where it stands -> where the job lies)
@@ -109,3 +109,20 @@ Theorem C07_side_conditions_at_creation :
     transit_side_b tr x = true /\ transit_claim_b tr x = true.
 Proof. intros i x t ts tr z W. apply timed_transit_sides_at_creation. apply WFS_complete; auto. Qed.
 Print Assumptions C07_side_conditions_at_creation.
+
+(* "never moves an unready job", over whole runs, for instances whose machine post-buffers are unordered (FLEX, the
+   default): EVERY -> TRANSIT transition applied in ANY run of the middleware takes the AGV's own claim, and the job
+   taken is not in process - in the micro-log of every decision, for every action sequence, oracle and fuel. *)
+Theorem C07_every_pickup_claimed_and_not_in_process_flex :
+  forall (sigma : oracle) (i : inst) (fuel : nat) (x0 : state) (joker0 : Z) (ta : bool) (r : result) (m : mw)
+         (a : Z) (r' : result) (m' : mw) (lg : mlog),
+    inst_nonneg_b i = true -> flex_post_b i = true ->
+    clock_b x0 = true -> wfs_b i x0 = true -> fresh2_b i x0 = true -> nodep_b x0 = true ->
+    reach sigma i fuel x0 joker0 ta r m -> mw_step sigma i fuel r m a = MOk r' m' lg ->
+    forall tr y, In (tr, y) lg -> transit_side_b tr y = true /\ transit_claim_b tr y = true /\ nodep_b y = true.
+Proof.
+  intros sigma i fuel x0 joker0 ta r m a r' m' lg Hnn Hf C W Fr D H Hm tr y Hin.
+  destruct (flex_micro_states sigma i Hnn Hf _ _ _ _ _ _ _ _ _ _ C W Fr D H Hm _ _ Hin) as [_ [_ [_ [N S]]]].
+  apply side2_parts in S. tauto.
+Qed.
+Print Assumptions C07_every_pickup_claimed_and_not_in_process_flex.
